@@ -18,7 +18,15 @@ class TypeNative(Native):
 
 
 class UuidV:
-    """uuid.uuid4(): only `.hex` is used; concatenating it into a string makes an arbitrary label."""
+    """uuid.uuid4(): only `.hex` is used; concatenating it into a string makes an arbitrary label.
+    In the concrete differential self-test the draws are a deterministic counter (same on the CPython side)."""
+    counter = None
+
+    def __init__(self):
+        self.value = None
+        if UuidV.counter is not None:
+            UuidV.counter += 1
+            self.value = '%032x' % UuidV.counter
 
 
 def pow2(t):
@@ -65,7 +73,7 @@ class Library:
 
         @nat('len')
         def _len(it, x):
-            if isinstance(x, (tuple, str)):
+            if isinstance(x, (tuple, str, bytes, bytearray)):
                 return len(x)
             if isinstance(x, VList) or isinstance(x, VSet):
                 return len(x.items)
@@ -183,7 +191,20 @@ class Library:
             return Opaque('str')
         B['str'] = TypeNative('str', mk_str, lambda v: isinstance(v, str) or (isinstance(v, Sym) and (v.is_label() or v.is_str())))
         B['float'] = TypeNative('float', lambda it, x=0.0: float(x), lambda v: isinstance(v, float))
-        B['bytes'] = TypeNative('bytes', lambda it, *a: Opaque('bytes'), lambda v: False)
+        def mk_bytes(it, x=b'', *a):
+            if isinstance(x, (bytes, bytearray)):
+                return bytes(x)
+            if isinstance(x, VList) and all(isinstance(i, int) for i in x.items):
+                return bytes(x.items)
+            if hasattr(x, 'm_bytes'):
+                return x.m_bytes(it)
+            if isinstance(x, Obj):
+                f = x.cls.lookup('__bytes__')
+                if f is not NOTFOUND:
+                    return it.call(f, [x], {})
+            return Opaque('bytes')
+        B['bytes'] = TypeNative('bytes', mk_bytes, lambda v: isinstance(v, bytes))
+        B['bytearray'] = TypeNative('bytearray', lambda it, x=b'': bytearray(x), lambda v: isinstance(v, bytearray))
 
         @nat('isinstance')
         def _isinstance(it, v, cls):
@@ -212,15 +233,15 @@ class Library:
 
         @nat('enumerate')
         def _enumerate(it, x, start=0):
-            return VList([(i + start, v) for i, v in enumerate(it.iterate(x))])
+            return GenV(iter([(i + start, v) for i, v in enumerate(it.iterate(x))]))
 
         @nat('zip')
         def _zip(it, *xs, strict=False):
-            return VList([tuple(t) for t in zip(*[list(it.iterate(x)) for x in xs])])
+            return GenV(iter([tuple(t) for t in zip(*[list(it.iterate(x)) for x in xs])]))
 
         @nat('reversed')
         def _reversed(it, x):
-            return VList(list(it.iterate(x))[::-1])
+            return GenV(iter(list(it.iterate(x))[::-1]))
 
         @nat('sorted')
         def _sorted(it, x, key=None, reverse=False):
@@ -230,7 +251,7 @@ class Library:
                 if key is None and not reverse and all(isinstance(k, str) or (isinstance(k, Sym) and k.is_label()) for k in keys):
                     return VList(sorted_labels(it, [it.label_term(k) for k in keys]))
                 return VList(stable_sort(it, items, keys, reverse))
-            idx = sorted(range(len(items)), key=lambda i: keys[i], reverse=reverse)
+            idx = sorted(range(len(items)), key=lambda i: to_py(keys[i]), reverse=reverse)
             return VList([items[i] for i in idx])
 
         def minmax(is_min):
@@ -371,6 +392,11 @@ class Library:
 
         @nat('super')
         def _super(it, *a):
+            if len(a) == 2 and isinstance(a[0], ClassV) and isinstance(a[1], Obj):
+                return SuperProxy(a[0], a[1])
+            fr = it.frames[-1] if getattr(it, 'frames', None) else None
+            if not a and fr is not None and fr[0] is not None and isinstance(fr[1], Obj):
+                return SuperProxy(fr[0], fr[1])
             raise Unsupported('super()')
 
         @nat('id')
@@ -620,7 +646,7 @@ class Library:
                     if not all(_conc(k) for k in keys):
                         L[:] = stable_sort(it, list(L), keys, reverse)
                         return
-                    idx = sorted(range(len(L)), key=lambda i: keys[i], reverse=reverse)
+                    idx = sorted(range(len(L)), key=lambda i: to_py(keys[i]), reverse=reverse)
                     L[:] = [L[i] for i in idx]
                 return N(sort)
         if isinstance(v, tuple):
@@ -730,6 +756,11 @@ class Library:
                 return N(strm)
         if isinstance(v, Sym) and v.is_str():
             return self.symstr_method(v, name)
+        if isinstance(v, (bytearray, bytes)):
+            if name == 'append':
+                return N(lambda x: v.append(x))
+            if name in ('decode', 'hex'):
+                return N(lambda *a, **k: getattr(v, name)(*a, **k))
         if isinstance(v, float):
             if name == 'is_integer':
                 return N(lambda: v.is_integer())
@@ -737,7 +768,7 @@ class Library:
             if name == 'bit_length':
                 return N(lambda: v.bit_length())
         if isinstance(v, UuidV) and name == 'hex':
-            return UuidHex()
+            return v.value if v.value is not None else UuidHex()
         if isinstance(v, GenV):
             pass
         return NOTFOUND
@@ -822,15 +853,15 @@ class Library:
         if mod == 'itertools':
             conc = lambda x: list(it.iterate(x))
             if name == 'product':
-                return N(lambda *xs, repeat=1: VList([tuple(t) for t in itertools.product(*[conc(x) for x in xs], repeat=_need_int(repeat))]))
+                return N(lambda *xs, repeat=1: GenV(iter([tuple(t) for t in itertools.product(*[conc(x) for x in xs], repeat=_need_int(repeat))])))
             if name == 'combinations':
-                return N(lambda x, r: VList([tuple(t) for t in itertools.combinations(conc(x), _need_int(r))]))
+                return N(lambda x, r: GenV(iter([tuple(t) for t in itertools.combinations(conc(x), _need_int(r))])))
             if name == 'permutations':
-                return N(lambda x, r=None: VList([tuple(t) for t in itertools.permutations(conc(x), r)]))
+                return N(lambda x, r=None: GenV(iter([tuple(t) for t in itertools.permutations(conc(x), r)])))
             if name == 'zip_longest':
-                return N(lambda *xs, fillvalue=None: VList([tuple(t) for t in itertools.zip_longest(*[conc(x) for x in xs], fillvalue=fillvalue)]))
+                return N(lambda *xs, fillvalue=None: GenV(iter([tuple(t) for t in itertools.zip_longest(*[conc(x) for x in xs], fillvalue=fillvalue)])))
             if name == 'chain':
-                return N(lambda *xs: VList([v for x in xs for v in conc(x)]))
+                return N(lambda *xs: GenV(iter([v for x in xs for v in conc(x)])))
         if mod == 'collections':
             if name == 'defaultdict':
                 return N(lambda f=None, *a: VDict(default_factory=f))
@@ -850,13 +881,21 @@ class Library:
                     if isinstance(x, (tuple, str, int, type(None), Sym, EnumMember)):
                         return x
                     if isinstance(x, Obj):
-                        f = x.cls.lookup('__copy__') if name == 'copy' else NOTFOUND
+                        f = x.cls.lookup('__copy__') if name == 'copy' else x.cls.lookup('__deepcopy__')
                         if f is not NOTFOUND:
-                            return it.call(f, [x], {})
+                            return it.call(f, [x] if name == 'copy' else [x, VDict()], {})
+                        if name == 'deepcopy':          # generic deep copy of an instance: same class, fields copied deeply
+                            return Obj(x.cls, {k: copy_(v) for k, v in x.fields.items()})
                     if hasattr(x, 'm_copy'):
                         return x.m_copy(it)
                     raise Unsupported(f'copy.{name} of {type(x).__name__}')
                 return N(copy_)
+        if mod == 'io' and name == 'StringIO':
+            def string_io(text=''):
+                if not isinstance(text, str):
+                    raise Unsupported('StringIO of a symbolic string')
+                return VList(text.splitlines(keepends=True))       # only iterated line by line (with … as s: for line in s)
+            return N(string_io)
         if mod == 'uuid' and name == 'uuid4':
             return N(lambda: UuidV())
         if mod == 'logging':
@@ -917,6 +956,13 @@ class Library:
 
 class UuidHex:
     pass
+
+
+class SuperProxy:
+    """super(cls, obj): attribute lookup continues after `cls` in the (linearised) bases of type(obj)"""
+
+    def __init__(self, cls, obj):
+        self.cls, self.obj = cls, obj
 
 
 StrUpperAtom = z3.Function('str_upper_atom', z3.StringSort(), z3.StringSort())
@@ -1113,6 +1159,10 @@ class SortedListModel:
                 if x != y:
                     return x < y
                 continue
+            if isinstance(x, str) and isinstance(y, str):
+                if x != y:
+                    return x < y
+                continue
             e = it.eq(x, y)
             if e is True:
                 continue
@@ -1167,6 +1217,14 @@ def _sorted_list(it, x):
                 return Native('SortedList.discard', lambda v: self_.sl.discard(it_, v))
             raise Unsupported('SortedList.' + name)
     return SL(list(it.iterate(x)))
+
+
+def to_py(v):
+    if isinstance(v, VList):
+        return [to_py(x) for x in v.items]
+    if isinstance(v, tuple):
+        return tuple(to_py(x) for x in v)
+    return v
 
 
 def _need_int(x):
